@@ -153,11 +153,12 @@ theorem output_types_today :
     ["dijkstra.DijkstraTransactionOutput"] := by decide
 
 /-- Regenerated too: which transaction-body and witness-set types preserve bytes today (only
-    Mary bodies and Babbage witness sets) — the complement is the recorded finding classes
+    Shelley, Allegra, Mary and Dijkstra bodies — the first, second and fourth since fix 92c71c5 — and Babbage witness sets) — the complement is the recorded finding classes
     `reencode-body` / `reencode-wit`; a type gaining the stored-bytes MarshalCBOR changes this
     statement (and shrinks the known class) on the next run. -/
 theorem bodies_and_witness_sets_today :
-    (GV.Model.PreserveTypes.eras.filter fun e => GV.Model.PreserveTypes.preservesKind "body" e) = ["mary"] ∧
+    (GV.Model.PreserveTypes.eras.filter fun e => GV.Model.PreserveTypes.preservesKind "body" e) =
+      ["shelley", "allegra", "mary", "dijkstra"] ∧
     (GV.Model.PreserveTypes.eras.filter fun e => GV.Model.PreserveTypes.preservesKind "wit" e) = ["babbage"] := by decide
 
 /-- **Regenerated tie for clause (3).** In the Go source as it stands now, the block type and
@@ -247,7 +248,7 @@ def C01_reencode_full (marshalOf : Stored → Bytes) : Prop :=
   ∀ s re, marshalOf { cbor := some s, reencoded := re } = s
 
 /-- It holds for the stored-bytes pattern (Shelley..Dijkstra blocks, transactions, the
-    Dijkstra header, Mary bodies, Babbage witness sets). -/
+    Dijkstra header, Shelley/Allegra/Mary/Dijkstra bodies, Babbage witness sets). -/
 theorem C01_reencode_partial : C01_reencode_full marshal := fun _ _ => rfl
 
 /-- A type without that pattern re-encodes its fields; on a non-minimally encoded
